@@ -186,7 +186,7 @@ func init() {
 		Plan: func(tier string) fw.Plan {
 			nSeq, nConc := 3000, 600
 			if tier == "thorough" {
-				nSeq, nConc = 120000, 12000
+				nSeq, nConc = 300000, 24000
 			}
 			return fw.Plan{
 				Level: "exploration",
